@@ -37,6 +37,7 @@ def __call__(self, who, reason): pass
 def errback(self, fail): pass
 def cancel(self): pass
 def _failed(self, err): pass
+def _ok(self, proto): pass
 def h_connectionLost(self, reason): pass
 def loseConnection(self): pass
 def addErrback(self, eb): pass
@@ -92,7 +93,7 @@ def build_world():
     w.add_class(ClassSpec(CB, None, {}, methods={'__call__': __call__}))
     w.add_class(ClassSpec(D, None, {'called': BOOL, 'g_failed': BOOL, 'g_reason': OPAQUE}, methods={'errback': errback, 'addErrback': addErrback}))
     w.add_class(ClassSpec(T, None, {'g_active': BOOL}, methods={'cancel': cancel}))
-    w.add_class(ClassSpec(F, client.DBusClientFactory, {'d': Ref(D)}, methods={'_failed': _failed}))
+    w.add_class(ClassSpec(F, client.DBusClientFactory, {'d': Ref(D)}, methods={'_failed': _failed, '_ok': _ok}))
     w.add_class(ClassSpec(P, objects.RemoteDBusObject, {'_disconnectCBs': Opt(ListT(Ref(CB)))}))
     w.add_class(ClassSpec(H, objects.DBusObjectHandler, {'_weakProxies': ListT(Ref(P)), 'g_lost': INT}))
     w.add_class(ClassSpec(C, client.DBusClientConnection, {
@@ -119,6 +120,30 @@ def build_world():
                  cx.new(VRef(cx.old(cx.args['self']).d, D)).called, cx.new(VRef(cx.old(cx.args['self']).d, D)).g_failed,
                  cx.new(VRef(cx.old(cx.args['self']).d, D)).g_reason == cx.args['err'].term)),
                  ('no-other-deferred-touched', others_same(cx, cx.old(cx.args['self']).d))], assumed=True)
+
+    contract(w, 'iface.DBusClientFactory._ok', {'self': Ref(F), 'proto': Ref(C)}, fn=_ok,
+             requires=lambda cx: [('the connect Deferred fires once', z3.Not(cx.old(VRef(cx.old(cx.args['self']).d, D)).called))],
+             modifies=lambda cx: [('*', D + '.called'), ('*', D + '.g_failed'), ('*', D + '.g_reason')],
+             ensures=lambda cx: [('connect-deferred-succeeded', z3.And(
+                 cx.new(VRef(cx.old(cx.args['self']).d, D)).called, z3.Not(cx.new(VRef(cx.old(cx.args['self']).d, D)).g_failed))),
+                 ('no-other-deferred-touched', others_same(cx, cx.old(cx.args['self']).d))], assumed=True)
+
+    # ---- the Hello reply: whatever unique name the bus hands out, the connection records it and the connect Deferred fires
+    # with success - nothing else happens and nothing is raised (an exception here would be swallowed by the reply's
+    # callback chain and the connect Deferred would never fire)
+    def hello_pre(cx):
+        o = cx.old(cx.args['self'])
+        return [('a factory waits for this connection', z3.Not(o.factory.none)),
+                ('its connect Deferred has not fired', z3.Not(cx.old(VRef(cx.old(VRef(o.factory.val.term, F)).d, D)).called))]
+
+    def hello_post(cx):
+        o, n = cx.old(cx.args['self']), cx.new(cx.args['self'])
+        d = cx.old(VRef(o.factory.val.term, F)).d
+        return [('the unique name handed out by the bus is recorded', z3.And(z3.Not(n.busName.none), n.busName.val.term == cx.a('busName'))),
+                ('the connect Deferred fires, with success', z3.And(cx.new(VRef(d, D)).called, z3.Not(cx.new(VRef(d, D)).g_failed))),
+                ('no other Deferred fires', others_same(cx, d))]
+    contract(w, 'txdbus.client.DBusClientConnection._cbGotHello', {'self': Ref(C), 'busName': STR}, requires=hello_pre, ensures=hello_post,
+             modifies=lambda cx: [(cx.args['self'], C + '.busName'), ('*', D + '.called'), ('*', D + '.g_failed'), ('*', D + '.g_reason')])
 
     # ---- proxy
     def cbs_of(view):
@@ -345,15 +370,15 @@ def others_same(cx, d):
 
 def build(tier='quick'):
     w = build_world()
-    targets = ['txdbus.client.DBusClientConnection.disconnect', 'nested:connect.try_next_ep', 'txdbus.client.connect', 'txdbus.client.DBusClientFactory.getConnection', 'txdbus.objects.RemoteDBusObject.notifyOnDisconnect', 'txdbus.objects.RemoteDBusObject.connectionLost',
+    targets = ['txdbus.client.DBusClientConnection._cbGotHello', 'txdbus.client.DBusClientConnection.disconnect', 'nested:connect.try_next_ep', 'txdbus.client.connect', 'txdbus.client.DBusClientFactory.getConnection', 'txdbus.objects.RemoteDBusObject.notifyOnDisconnect', 'txdbus.objects.RemoteDBusObject.connectionLost',
                'txdbus.objects.DBusObjectHandler.connectionLost', 'txdbus.client.DBusClientConnection.connectionLost']
     sp = Spec('C09', w, lambda world: Models09(world), targets, replay=replay,
               bounded=[{'name': 'connection-history', 'run': run_bounded}],
-              trusted=['Deferred.errback / DelayedCall.cancel / factory._failed as interface stubs over ghost fields (a Deferred fires once, only an active timer is cancelled)'],
+              trusted=['Deferred.errback / DelayedCall.cancel / factory._failed / factory._ok as interface stubs over ghost fields (a Deferred fires once, only an active timer is cancelled)'],
               assumed=['PC (established by the C08 contracts): a pending entry has an unfired Deferred and an active timer; two pending serials share neither; the connect Deferred is none of them',
                        'disconnect callbacks do not raise (a raising callback would stop the loop: outside the property)',
                        'list(WeakSet) is the list of live proxies; garbage collection of proxies is not modelled',
-                       'connect(): each step of the endpoint walk is proved (the inner function as a target of its own); that the steps compose over a history of failures, getDBusEndpoints address parsing and the path connectionAuthenticated -> Hello -> _cbGotHello are covered by the bounded part only',
+                       'connect(): each step of the endpoint walk is proved (the inner function as a target of its own); that the steps compose over a history of failures, getDBusEndpoints address parsing and connectionAuthenticated (which sends Hello and chains _cbGotHello / factory._failed on its reply) are covered by the bounded part only; _cbGotHello itself is under contract for every unique name',
                        'list.reverse() on a list of unknown length: uninterpreted rev with |rev(q)| = |q| and the two end elements (Python list semantics)'],
               notes=['the ghost logs (callback invocations, proxy notifications) are appended by the interface stub / by a ghost epilogue of the verified function'],
               explanation='connectionLost of the connection, the object handler and the proxies verified for every table state: exactly-once callbacks in order, every outstanding call failed once with its timer cancelled, connect Deferred failed iff not yet fired; connection histories through the real objects on top',
